@@ -228,6 +228,13 @@ public:
 			negated.setsign(false);
 			return *this += negated;
 		}
+		if (sign()) {
+			// (-a) - b with b >= 0 is -(a + b)
+			setsign(false);
+			*this += rhs;
+			setsign(!iszero());
+			return *this;
+		}
 		auto lhsSize = _block.size();
 		if (lhsSize == 0) {
 			*this = -rhs;
